@@ -584,6 +584,8 @@ class RefPeer:
         self.send(byte(msgtype) + mpint(self._e))
 
     def hostkey_blob(self):
+        if getattr(self, 'fake_hostkey_blob', None) is not None:
+            return self.fake_hostkey_blob
         pub = self.hostkey.public_key().public_bytes(serialization.Encoding.Raw,
                                                      serialization.PublicFormat.Raw)
         return string('ssh-ed25519') + string(pub)
